@@ -231,17 +231,17 @@ func hexOfPix(pix [][]uint16) string {
 // ---------------------------------------------------------------------------------------
 
 type e2eCfg struct {
-	min, max, preview, constOn, diskOk, window, windowSet int
+	min, max, preview, constOn, diskOk, window, windowSet               int
 	dyn, tmin, tmax, thresh, delta, count, gap, one, trig, warmer, edge int
-	throttle, bucketSecs int
-	lepton                int
-	w, h, fps             int
-	devID                 int
-	devName               string
-	lat, lon, alt, acc    float32
-	serial                int
-	firmware              string
-	model                 string
+	throttle, bucketSecs                                                int
+	lepton                                                              int
+	w, h, fps                                                           int
+	devID                                                               int
+	devName                                                             string
+	lat, lon, alt, acc                                                  float32
+	serial                                                              int
+	firmware                                                            string
+	model                                                               string
 }
 
 func b2s(x int) string {
